@@ -93,6 +93,9 @@ def insertBy {α κ} (lt : κ → κ → Bool) (key : α → κ) (a : α) : List
 def sortedBy {α κ} (lt : κ → κ → Bool) (key : α → κ) (xs : List α) : List α :=
   xs.foldl (fun acc a => insertBy lt key a acc) []
 
+/-- a token constructor call `Cls(start, end, value)` read as the triple of its arguments -/
+def tok3 (start stop : Int) (value : List Nat) : Int × Int × List Nat := (start, stop, value)
+
 /-- `min(a, b)` / `max(a, b)` on ints -/
 def imin (a b : Int) : Int := if b < a then b else a
 def imax (a b : Int) : Int := if b > a then b else a
